@@ -90,6 +90,60 @@ func TestVerifMainLeg(t *testing.T) {
 			mlClass("ip reference clocks: a client and a filter of their own each")
 		}
 		mlEval(n)
+	case "c20wiring":
+		// what the service hands to the key-exchange fetchers of its clients: the configured key-exchange
+		// server and port, the ntske/1 offer, certificate verification as configured, and a fetcher
+		// (keys, cookie pool) per client
+		n := 0
+		for _, ke := range []string{"127.0.0.9:4460", "ke.example.net:4461", "[::1]:14460"} {
+			host, port, _ := net.SplitHostPort(ke)
+			for _, skip := range []bool{false, true} {
+				la, ra := &net.UDPAddr{IP: net.IPv4(127, 0, 0, 1)}, &net.UDPAddr{IP: net.IPv4(127, 0, 0, 2), Port: 123}
+				a := newNTPReferenceClockIP(log, la, ra, 0, []string{authModeNTS}, ke, skip)
+				b := newNTPReferenceClockIP(log, la, ra, 0, nil, ke, skip)
+				n++
+				f := &a.ntpc.Auth.NTSKEFetcher
+				switch {
+				case !a.ntpc.Auth.Enabled || b.ntpc.Auth.Enabled:
+					mlViol("timeservice.newNTPReferenceClockIP|state:NTS enabled although not configured, or not enabled although configured", ke)
+				case f.TLSConfig.ServerName != host || f.Port != port || f.QUIC.Enabled:
+					mlViol("timeservice.configureIPClientNTS|state:fetcher does not name the configured key-exchange server and port over TLS", fmt.Sprintf("%s -> %q %q quic=%v", ke, f.TLSConfig.ServerName, f.Port, f.QUIC.Enabled))
+				case len(f.TLSConfig.NextProtos) != 1 || f.TLSConfig.NextProtos[0] != "ntske/1" || f.TLSConfig.InsecureSkipVerify != skip:
+					mlViol("timeservice.configureIPClientNTS|state:fetcher does not offer ntske/1 only, or certificate verification is not as configured", fmt.Sprintf("%s skip=%v -> %+v %v", ke, skip, f.TLSConfig.NextProtos, f.TLSConfig.InsecureSkipVerify))
+				default:
+					mlClass("ip client: key-exchange fetcher as configured")
+				}
+				ia1, _ := addr.ParseIA("1-ff00:0:110")
+				sla := udp.UDPAddr{IA: ia1, Host: &net.UDPAddr{IP: net.IPv4(127, 0, 0, 1)}}
+				sra := udp.UDPAddr{IA: ia1, Host: &net.UDPAddr{IP: net.IPv4(127, 0, 0, 2), Port: 10123}}
+				c := newNTPReferenceClockSCION(log, "127.0.0.1:30255", sla, sra, 0, []string{authModeNTS}, ke, skip)
+				n++
+				fetchers := map[uintptr]bool{}
+				ok := true
+				for i, nc := range c.ntpcs {
+					g := &nc.Auth.NTSKEFetcher
+					fetchers[mlPtr(g)] = true
+					if !nc.Auth.NTSEnabled || g.TLSConfig.ServerName != host || g.Port != port || !g.QUIC.Enabled || g.QUIC.DaemonAddr != "127.0.0.1:30255" ||
+						g.QUIC.RemoteAddr.IA != ia1 || g.QUIC.LocalAddr.IA != ia1 || len(g.TLSConfig.NextProtos) != 1 || g.TLSConfig.NextProtos[0] != "ntske/1" || g.TLSConfig.InsecureSkipVerify != skip {
+						mlViol("timeservice.configureSCIONClientNTS|state:fetcher of a client is not set up for the configured key-exchange server over QUIC", fmt.Sprintf("%s client %d", ke, i))
+						ok = false
+						break
+					}
+				}
+				if ok && len(fetchers) != len(c.ntpcs) {
+					mlViol("timeservice.newNTPReferenceClockSCION|state:clients share a key-exchange fetcher", ke)
+				} else if ok {
+					mlClass("scion clients: a key-exchange fetcher each, as configured")
+				}
+			}
+		}
+		for in, want := range map[string]string{"0-0,127.0.0.1:123,ke.example:4460": "127.0.0.1:123", "1-ff00:0:110,10.1.2.3:10123": "10.1.2.3:10123"} {
+			n++
+			if got := ntskeServerFromRemoteAddr(in); got != want {
+				mlViol("timeservice.ntskeServerFromRemoteAddr|wrong-value:key-exchange server is not the host part of the remote address", fmt.Sprintf("%q -> %q", in, got))
+			}
+		}
+		mlEval(n)
 	case "c01wiring":
 		rng := rand.New(rand.NewPCG(1, 1))
 		n := 0
